@@ -10,9 +10,13 @@ PROP = "C20"
 
 
 def norm(name):
-    n = re.sub(r"[^a-z0-9]", "", name.lower())
-    # a parameter the compiler could not name gets each back-end's fallback: Column_n in Go, dollar_n in Kotlin/Python
-    return re.sub(r"^(column|dollar)(\d+)$", r"unnamed\2", n)
+    # a parameter the compiler could not name gets each back-end's fallback: Column_n in Go, dollar_n in
+    # Python, dollar<n> in Kotlin (where a second unnamed parameter additionally gets a _2 suffix, because
+    # the suffix table is keyed by the empty column name): compared by placeholder number only
+    m = re.match(r"^(?:column|dollar)_?(\d+)(?:_\d+)?$", name.lower())
+    if m:
+        return "unnamed" + m.group(1)
+    return re.sub(r"[^a-z0-9]", "", name.lower())
 
 
 def gen_input(rng):
